@@ -111,6 +111,33 @@ def sq(name):
     return (ord(name[0]) - 97) + 8 * (int(name[1]) - 1)
 
 
+def cli_perft(res, fens, depth):
+    """`weechess perft --fen F --depth d` (the real process, observe_at of C01): per first move the successor FEN and its
+    leaf count, and the total — against the model's successors (`succ`), `perft d-1` of each and `perft d`"""
+    import subprocess
+    exe, msg = wee.build_weechess()
+    if exe is None:
+        res.broken.append("weechess binary does not build: " + msg[-300:])
+        return
+    succ, _, _ = wee.run_driver(["succ " + f for f in fens], jobs=4)
+    tot, _, _ = wee.run_driver([f"perft {depth} {f}" for f in fens], jobs=4)
+    for f, (ms, _), (mt, _) in zip(fens, succ, tot):
+        want = [x.replace("_", " ") for x in ms.split(" ")[1:]]
+        sub, _, _ = wee.run_driver([f"perft {depth - 1} {x}" for x in want], jobs=4) if want else ([], 0, "")
+        model = " ".join(sorted(f"{x.replace(' ', '_')}={m}" for x, (m, _) in zip(want, sub))) + f" total={mt}"
+        try:
+            out = subprocess.run([exe, "perft", "--fen", f, "--depth", str(depth)], capture_output=True, text=True, timeout=300)
+            rows = re.findall(r"^\S+: (\d+) \[(.+)\]$", out.stdout, re.M)
+            t = re.search(r"Total nodes: (\d+)", out.stdout)
+            impl = " ".join(sorted(f"{x.replace(' ', '_')}={c}" for c, x in rows)) + f" total={t.group(1) if t else '?'}"
+            if out.returncode != 0:
+                impl = f"exit {out.returncode}: " + out.stderr[-200:]
+        except subprocess.TimeoutExpired:
+            impl = "<hang>"
+        res.add(f"cli-perft {depth} {f}", impl, model, "-", None, nontrivial=bool(want))
+        res.tag("cli_perft")
+
+
 def c01(res, tier, seed, deep):
     n = 40000 if tier == "thorough" else (12000 if deep else 5000)
     fens = positions(seed, n)
@@ -134,8 +161,8 @@ def c01(res, tier, seed, deep):
         reqs += ["perft 4 rnbqkbnr/pppppppp/8/8/8/8/PPPPPPPP/RNBQKBNR w KQkq - 0 1",
                  "perft 4 r3k2r/Pppp1ppp/1b3nbN/nP6/BBP1P3/q4N2/Pp1P2PP/R2Q1RK1 w kq - 0 1"]
     wee.compare_batch(res, reqs, SPEC_VIEWS, nontrivial=lambda r, i: not i.startswith("0"))
-    for req, impl in zip(reqs, [None] * len(reqs)):
-        pass
+    cli_perft(res, rnd.sample(fens[:400], 30 if tier == "thorough" else (12 if deep else 6)) +
+              ["r3k2r/p1ppqpb1/bn2pnp1/3PN3/1p2P3/2N2Q1p/PPPBBPPP/R3K2R w KQkq - 0 1"], 3 if tier == "thorough" else 2)
     return "positions: corpus of rule-coverage FENs + weighted random legal play (Lean spec generator, seed-derived); non-trivial = position has at least one legal move; distinct = distinct request lines"
 
 
